@@ -98,7 +98,7 @@ def paev(e):
     raise ValueError('event outside the model alphabet: %r' % (e,))
 
 
-def pevs(log, src=None):
+def pevs(log, src=None, anns=None):
     """log -> Coq events.  tempo_req [notify tempo] tempo_done(fields) -> ETempo fields [ENotify STempo]
     (the setter updates the fields first, then notifies; the fields are read back after it returned);
     sched_req base -> ESchedCall base delta; sched_ret dropped.  src (optional list) receives, for every
@@ -137,6 +137,9 @@ def pevs(log, src=None):
             if any(not (x[1] == 'notify' and x[2] == 'tempo') for x in inner):
                 raise ValueError('unexpected events inside a tempo/beats setter: %r' % (inner,))
             emit(pev(log[j]), j)
+            if anns is not None and len(log[j]) > 7:
+                kind = {'tempo': 'RTempo', 'etempo': 'REtempo', 'beats_add': 'RBeats'}[e[2]]
+                anns.append('(%s, %s, %s)' % (kind, q(log[j][6]), q(log[j][7])))
             for n, x in enumerate(inner):
                 emit(pev(x), i + 1 + n)
             i = j + 1
@@ -171,19 +174,23 @@ def trace_term(r):
         # exactly the model's fair drain run of the model's queue
         k = r['_drain_at']
         drain = '(Some (%d%%nat, %s))' % (off + len(pevs(r['log'][:k])), q(r['log'][k + 1][2]))
+    noann = '([] : list (retime_kind * Q * Q)%type)'
     if r['clock'] == 'sys':
         evs = SYS_PREFIX + pevs(r['log'], src)
         r['_src'] = [None] * len(SYS_PREFIX) + src
-        return 'clk', '(KSys, tm_id, [%s], %s, %s)' % ('; '.join(evs), snap(len(SYS_PREFIX) + npre), drain)
+        return 'clk', '(KSys, tm_id, [%s], %s, %s, %s)' % ('; '.join(evs), snap(len(SYS_PREFIX) + npre), drain, noann)
     m = '(mkTM %s %s %s)' % tuple(q(x) for x in r['init_map'])
-    evs = pevs(r['log'], src)
+    anns = []
+    evs = pevs(r['log'], src, anns)
     r['_src'] = src
-    return 'clk', '(KTempo, %s, [%s], %s, %s)' % (m, '; '.join(evs), snap(npre), drain)
+    return 'clk', '(KTempo, %s, [%s], %s, %s, %s)' % (m, '; '.join(evs), snap(npre), drain,
+                                                      ('([%s] : list (retime_kind * Q * Q)%%type)' % '; '.join(anns)))
 
 
 CLK_CHECKS = ['accepts_quiescent', 'never_early', 'exactly_once+order', 'resched_relative_to_scheduled',
               'notify_iff_head_changed', 'no_oversleep', 'sched_relative_to_physical_now',
-              'model_queue_equals_real_queue', 'thread_does_next_clock_event', 'fair_drain_run_matches']
+              'model_queue_equals_real_queue', 'thread_does_next_clock_event', 'fair_drain_run_matches',
+              'tempo_map_after_change_is_the_entry_points_definition']
 BODY_CLK = '''
 Definition qok (k : kind) (m : tmap) (evs : list event) (x : option (nat * list (Q * task))%type) : bool :=
   match x with
@@ -198,12 +205,12 @@ Definition dok (k : kind) (m : tmap) (evs : list event) (y : option (nat * Q)) :
   | None => true
   | Some (n, t) => drain_matches k m evs n CNotified t
   end.
-Definition chk (c : (kind * tmap * list event * option (nat * list (Q * task)) * option (nat * Q))%type) : list bool :=
-  let '(k, m, evs, x, y) := c in
+Definition chk (c : (kind * tmap * list event * option (nat * list (Q * task)) * option (nat * Q) * list (retime_kind * Q * Q))%type) : list bool :=
+  let '(k, m, evs, x, y, anns) := c in
   [accepts_quiescent k m evs; mon_never_early m None evs; mon_once [] 0 None evs; mon_resched 0 evs;
    mon_notify [] 0 evs; mon_no_oversleep (init k m) evs; mon_sched_base m evs; qok k m evs x;
-   mon_next (init k m) evs; dok k m evs y].
-Definition ok (c : (kind * tmap * list event * option (nat * list (Q * task)) * option (nat * Q))%type) : bool := forallb (fun b => b) (chk c).
+   mon_next (init k m) evs; dok k m evs y; mon_retime m anns evs].
+Definition ok (c : (kind * tmap * list event * option (nat * list (Q * task)) * option (nat * Q) * list (retime_kind * Q * Q))%type) : bool := forallb (fun b => b) (chk c).
 Eval vm_compute in bad_idx ok cases.
 '''
 APP_CHECKS = ['a_accepts_quiescent', 'never_early', 'resched_relative_to_present', 'exactly_once+order', 'no_oversleep',
@@ -234,7 +241,7 @@ def diagnose(ctx, kind, term, variant):
     """which check fails, and where the model stops"""
     if kind == 'clk':
         txt = HEADER + 'Definition c := %s.\n' % term + BODY_CLK.replace('Eval vm_compute in bad_idx ok cases.', '') + \
-            "Eval vm_compute in chk c.\nEval vm_compute in (let '(k, m, evs, _, _) := c in first_reject (init k m) evs 0).\n"
+            "Eval vm_compute in chk c.\nEval vm_compute in (let '(k, m, evs, _, _, _) := c in first_reject (init k m) evs 0).\n"
     else:
         v = 'VFlag' if variant == 'flag' else 'VOrig'
         txt = HEADER + 'Definition c := %s.\n' % term + \
@@ -303,7 +310,8 @@ def gen_cross(kind, via, what, idx):
     change to 32, by a jump of the beats, or (what = 'sched') another task is scheduled 62.5 ms ahead -- issued from a
     task running on ANOTHER clock, from the OSC receive path, or from another thread (with / without the main lock).
     It must run before +1.5 s after the change (oversleep would be ~3 s): load cannot delay a wake-up that long."""
-    inner = {'tempo': ['tempo', 32, 1], 'beats': ['beats_add', 23, 8], 'sched': ['sched', 2, 1, 16]}[what]
+    inner = {'tempo': ['tempo', 32, 1], 'etempo': ['etempo', 32, 1], 'beats': ['beats_add', 23, 8],
+             'sched': ['sched', 2, 1, 16]}[what]
     if via == 'thread':
         op = inner
     elif via == 'nolock':
@@ -323,7 +331,7 @@ def gen_cross(kind, via, what, idx):
 def gen_cross_all(idx, nolock=False):
     out = []
     for via in ['sys', 'app', 'aux', 'osc', 'thread'] + (['nolock'] if nolock else []):
-        for what in ('tempo', 'beats'):
+        for what in ('tempo', 'etempo', 'beats'):
             idx += 1
             out.append(gen_cross('tempo', via, what, idx))
     for kind, vias in (('sys', ['app', 'aux', 'osc']), ('tempo', ['sys', 'app', 'aux', 'osc']), ('app', ['sys', 'aux', 'osc'])):
@@ -507,6 +515,20 @@ def gen_after_routine_failure(kind, how, idx):
             'lower_bound': True, 'expect_counts': {'1': n1, '2': 1, '3': 1, '4': 2}}
 
 
+def gen_retime_bound(entry, via, factor, idx):
+    """every tempo / beat changing entry point, some time after the clock's last base point, with a pending task and the
+    thread asleep: TempoClock(1); task 1 scheduled 1 beat ahead; 300 ms later `entry` (tempo / etempo to `factor`, or
+    beats += 1/4) issued from `via`.  Never-early bound from the documented semantics: the beats still to go at the change
+    are (1 - elapsed [- 1/4]); they take that many / new tempo seconds from the change."""
+    inner = {'tempo': ['tempo', factor, 1], 'etempo': ['etempo', factor, 1], 'beats': ['beats_add', 1, 4]}[entry]
+    op = inner if via == 'thread' else (['osc_do', inner] if via == 'osc' else ['via', via, inner])
+    return {'name': 'tempo-retime-%s-x%s-from-%s' % (entry, factor, via), 'clock': 'tempo', 'index': idx, 'tempo': [1, 1],
+            'tasks': {'1': {'results': [['none']]}},
+            'threads': [[['sleep', 150], ['sched', 1, 1, 1], ['sleep', 300], op]],
+            'final': 'clear', 'wait_counts': {'1': 1}, 'before_final': 5.0, 'after_final': 0.02,
+            'retime_bound': {'entry': entry, 'factor': factor, 'delta': 1.0}}
+
+
 def gen_cancel_via(kind, via, idx):
     """clear() issued from a task of another clock: nothing that was pending may run after it returned"""
     return {'name': '%s-clear-from-%s' % (kind, via), 'clock': kind, 'index': idx, 'tempo': [2, 1],
@@ -536,7 +558,9 @@ def gen_stress(rng, kind, idx, heavy=False):
             if rng.random() < 0.1:
                 ops.append(['clear'])
             if kind == 'tempo' and rng.random() < 0.4:
-                ops.append(['tempo'] + rng.choice(TEMPI))
+                ops.append([rng.choice(['tempo', 'etempo'])] + rng.choice(TEMPI))
+            if kind == 'tempo' and rng.random() < 0.2:
+                ops.append(['bpb', rng.choice([3, 4, 5])])
             if kind != 'sys' and rng.random() < 0.2:
                 ops.append(['xsched', rng.randint(1, ntasks), 1, 64])
             nested.append(ops)
@@ -568,8 +592,8 @@ def gen_stress(rng, kind, idx, heavy=False):
             elif x < 0.75:
                 ops.append(['clear'])
             elif x < 0.92 and kind == 'tempo':
-                inner = rng.choice([['tempo'] + rng.choice(TEMPI), ['tempo'] + rng.choice(TEMPI),
-                                    ['beats_add', rng.choice([-8, -3, 2, 5, 16]), 64]])
+                inner = rng.choice([['tempo'] + rng.choice(TEMPI), ['etempo'] + rng.choice(TEMPI), ['tempo'] + rng.choice(TEMPI),
+                                    ['etempo'] + rng.choice(TEMPI), ['beats_add', rng.choice([-8, -3, 2, 5, 16]), 64]])
                 ops.append(wrap_via(rng, kind, inner))
             elif x < 0.85 and kind == 'sys':
                 ops.append(['osc'])
@@ -686,6 +710,11 @@ def program(ctx, rng):
     for kind, where in (('tempo', 'sys'), ('tempo', 'aux'), ('tempo', 'same'), ('sys', 'aux'), ('sys', 'same')):
         idx += 1
         p1.append(gen_sched_during_routine(kind, where, idx))
+    combos = [('etempo', 'thread', 4), ('etempo', 'sys', 2), ('tempo', 'thread', 4), ('tempo', 'osc', 2),
+              ('beats', 'thread', 1), ('etempo', 'osc', 4), ('beats', 'sys', 1), ('tempo', 'app', 4), ('etempo', 'aux', 2)]
+    for entry, via, factor in (combos[:5] if ctx.quick else combos):
+        idx += 1
+        p1.append(gen_retime_bound(entry, via, factor, idx))
     for kind in ('sys', 'tempo', 'app'):
         idx += 1
         p1.append(gen_exceptions(kind, idx))
@@ -882,9 +911,24 @@ def e2e(sc, r):
     if r.get('queue_consistent') not in (True, None):
         v.append(('queue_consistency', '%s: TaskQueue bookkeeping is inconsistent with its contents (empty() / _removed_counter / '
                   '_entry_finder vs live entries): %s' % (sc['name'], r.get('queue_consistent'))))
+    rb = sc.get('retime_bound')
+    if rb:
+        sch = [x for x in r['scheds'] if x[1] == 1 and x[2] == 'delta']
+        ch = [x for x in r['scheds'] if x[2] in ('tempo', 'etempo', 'beats_add')]
+        ran = [a[1] for a in aw if a[0] == 1]
+        if sch and ch and ran:
+            # beats still to go when the change took effect (tempo 1 until then): at least delta - (change end - sched start)
+            togo = rb['delta'] - (ch[0][5] - sch[0][4]) - (0.25 if rb['entry'] == 'beats' else 0.0)
+            newtempo = float(rb['factor']) if rb['entry'] != 'beats' else 1.0
+            earliest = ch[0][4] + max(togo, 0.0) / newtempo
+            if ran[0] < earliest - 0.003:
+                v.append(('never_early', '%s: task 1 was 1 beat ahead at tempo 1; %.3f s later %s (new tempo %s) issued by %s; at '
+                          'least %.3f beats were still to go, i.e. %.3f s from the change: the task ran %.3f s BEFORE that'
+                          % (sc['name'], ch[0][4] - sch[0][4], rb['entry'], newtempo, ch[0][0], togo, max(togo, 0.0) / newtempo,
+                             earliest - ran[0])))
     xa = sc.get('expect_after')
     if xa:
-        kinds = {'tempo': ('tempo',), 'beats': ('beats_add',), 'sched': ('delta',)}[xa['op']]
+        kinds = {'tempo': ('tempo',), 'etempo': ('etempo',), 'beats': ('beats_add',), 'sched': ('delta',)}[xa['op']]
         done = [s[5] for s in r['scheds'] if s[2] in kinds and (xa['op'] != 'sched' or s[1] == xa['task'])]
         ran = [a[1] for a in aw if a[0] == xa['task']]
         if done and (not ran or ran[0] - done[0] > xa['bound']):
@@ -946,11 +990,11 @@ def correspond(ctx):
                 c.nontriv((sc['name'], json.dumps(r['log'])))
             xa = sc.get('expect_after')
             if xa:
-                kinds = {'tempo': ('tempo',), 'beats': ('beats_add',), 'sched': ('delta',)}[xa['op']]
+                kinds = {'tempo': ('tempo',), 'etempo': ('etempo',), 'beats': ('beats_add',), 'sched': ('delta',)}[xa['op']]
                 who = [x[0] for x in r['scheds'] if x[2] in kinds and (xa['op'] != 'sched' or x[1] == xa['task'])]
                 c.count('cross:%s issued by %s' % (xa['op'], who[0] if who else 'NOBODY (not exercised)'))
             for x in r['scheds']:
-                if x[2] in ('tempo', 'beats_add'):
+                if x[2] in ('tempo', 'beats_add', 'etempo'):
                     c.count('retime by ' + str(x[0]).rstrip('0123456789'))
             if r.get('async_not_run'):
                 c.count('asynchronous operations cancelled (not run within 5 s: load / lost datagram)', r['async_not_run'])
@@ -1083,6 +1127,9 @@ def search(ctx, failures):
             scs.append(gen_after_routine_failure(kind, how, idx))
         idx += 1
         scs.append(gen_same_callable(rng, kind, idx))
+    for entry, via, factor in (('etempo', 'thread', 4), ('tempo', 'thread', 4), ('beats', 'thread', 1), ('etempo', 'sys', 2)):
+        idx += 1
+        scs.append(gen_retime_bound(entry, via, factor, idx))
     found, seen = [], set()
     for f in failures:
         sc = f.replay.get('scenario') if isinstance(f.replay, dict) else None
